@@ -209,7 +209,18 @@ func run(ci any) (res obs.Result) {
 		if *propFlag != "C16" {
 			break
 		}
-		if o := outs[e.Acc]; o.Kind != "ok" || o.Val != e.Val {
+		o := outs[e.Acc]
+		if strings.HasPrefix(e.Val, "ERR:") {
+			if o.Kind != e.Val[4:] {
+				got := o.Kind
+				if o.Kind == "ok" {
+					got = o.Val
+				}
+				fail(e.Acc, "value", "%s returned %.300s for a reply that is not a decimal integer (%s expected)", e.Acc, got, e.Val[4:])
+			}
+			continue
+		}
+		if o.Kind != "ok" || o.Val != e.Val {
 			got := o.Val
 			if o.Kind != "ok" {
 				got = o.Kind
